@@ -58,6 +58,7 @@ def generate(rng, tier, idx):
                  # location/scale incl. tiny relative and tiny absolute spreads
                  'affine': [rng.choice([[0.0, 1.0], [0.0, 1.0], [1.7e9, 3e3], [2e-9, 5e-10],
                                         [-40.0, 0.01], [5.0, 1000.0]]) for _ in range(d)]}
+        zoo.with_index(table)
         mapping = {'c%d' % j: {'__cls__': gmvlib.FAM['gaussian' if f == 'normal' else 'uniform']}
                    for j, f in enumerate(fam)}
         config = {'form': 'dict', 'ctor': {'distribution': {'__map__': mapping}}}
